@@ -38,7 +38,11 @@ TRUSTED_BASE = ['pickle / repr+Python parser / zlib / base64 as exact codecs of 
                 '_deserialize_lexer_conf, LarkOptions.__init__ loop; lists, tags and defaults are regenerated',
                 'stand-alone program part: the Python evaluator is a Section parameter with the locality hypothesis (a run depends '
                 'only on the definitions reachable from the entry point through global-name references); translator/'
-                'gen_standalone.py executes the tool\'s own extract_sections / strip_docstrings and analyses with ast + symtable']
+                'gen_standalone.py executes the tool\'s own extract_sections / strip_docstrings and analyses with ast + symtable',
+                'stand-alone name resolution (round 12): Ser/NameRes.v is the evaluator model for "is a global name bound when it is '
+                'looked up"; trusted: the syntactic position classification of translator/gen_saunits.py, name-based attribute '
+                'resolution as over-approximation of dynamic dispatch, declared sa_not_run = [create_lalr_parser] and '
+                'sa_unsupported_attrs (validated by the call trace of the real generated modules against sa_reached)']
 ASSUMPTIONS = ['memo keys identify objects inside one instance: rules are distinct by (origin, expansion), terminals '
                'by name (checked on every exported instance by inst_wf_b)',
                'cache_grammar (Grammar object in the saved data), custom lexer classes and postlexers are outside the model',
